@@ -21,8 +21,10 @@ from .values import SV, Unsupported, ListVal
 
 Asg = z3.DeclareSort("Asg")
 INS = z3.Function("bf_in_product", Asg, T.Bool, T.Int, T.Bool)
-VALID = z3.Function("bf_valid", Asg, T.Bool)
-VALUE = z3.Function("bf_value", Asg, z3.ArraySort(T.Key, T.Bool), z3.ArraySort(T.Key, T.Real), T.Real)
+# the first argument identifies *which* function was passed (an arbitrary one for a parameter; a fixed number for a
+# function of the repository named at a call site, so that passing qubo_value where pubo_value is meant is seen)
+VALID = z3.Function("bf_valid", T.Int, Asg, T.Bool)
+VALUE = z3.Function("bf_value", T.Int, Asg, z3.ArraySort(T.Key, T.Bool), z3.ArraySort(T.Key, T.Real), T.Real)
 SetSort = z3.ArraySort(Asg, T.Bool)
 CntSort = z3.ArraySort(Asg, T.Int)
 GrpSort = z3.ArraySort(T.Real, CntSort)
@@ -31,11 +33,52 @@ GrpSort = z3.ArraySort(T.Real, CntSort)
 class AbstractFn:
     """the caller-supplied `valid` (kind 'valid') or `value` (kind 'value') function"""
 
-    def __init__(self, kind):
-        self.kind = kind
+    def __init__(self, kind, fid):
+        self.kind, self.fid = kind, fid
 
     def __repr__(self):
-        return "AbstractFn(%s)" % self.kind
+        return "AbstractFn(%s, %s)" % (self.kind, self.fid)
+
+
+def fid_of(qualname):
+    import zlib
+    return z3.IntVal(zlib.crc32(qualname.encode()) + 1)
+
+
+def param_fn(eng, kind, hint):
+    eng.nfresh += 1
+    return AbstractFn(kind, z3.Int("%s_fn!%d" % (hint, eng.nfresh)))
+
+
+def as_abstract(eng, v, kind):
+    """a function of the repository passed as `valid` / `value`: an abstract pure function identified by its name.
+    ASSUMED (listed in the evidence): the function has no side effect."""
+    from .values import Closure, BoundMethod
+    if isinstance(v, AbstractFn):
+        return v if v.kind == kind else None
+    if isinstance(v, Closure) and v.env is None and v.cls is None and kind == "value":
+        return AbstractFn("value", fid_of(v.qualname()))
+    if isinstance(v, BoundMethod) and v.func.name == "is_solution_valid" and kind == "valid":
+        return _known_valid(eng, fid_of(v.func.qualname()), v.func.fdef)
+    if isinstance(v, Closure) and v.fdef.name == "<lambda>" and kind == "valid" and _always_true(v.fdef):
+        return _known_valid(eng, fid_of("<lambda x: True>"), v.fdef)
+    return None
+
+
+def _always_true(fd):
+    """the function body is `return True` (after an optional docstring)"""
+    import ast
+    body = [st for st in fd.body if not (isinstance(st, ast.Expr) and isinstance(st.value, ast.Constant))]
+    return (len(body) == 1 and isinstance(body[0], ast.Return) and isinstance(body[0].value, ast.Constant)
+            and body[0].value.value is True)
+
+
+def _known_valid(eng, fid, fd):
+    if _always_true(fd):
+        eng.nfresh += 1
+        t = z3.Const("tq!%d" % eng.nfresh, Asg)
+        eng.facts.add(z3.ForAll([t], VALID(fid, t)))
+    return AbstractFn("valid", fid)
 
 
 class Product:
@@ -124,11 +167,11 @@ def call_abstract(eng, f, args):
         (x,) = args
         if not (isinstance(x, SV) and x.t == "asg"):
             raise Unsupported("valid() of a non-assignment")
-        return SV(VALID(x.e), "bool")
+        return SV(VALID(f.fid, x.e), "bool")
     x, D = args
     if not (isinstance(x, SV) and x.t == "asg"):
         raise Unsupported("value() of a non-assignment")
     ver = eng.store_of(D)
     if ver.ksort != T.Key or ver.vsort != T.Real:
         raise Unsupported("value() of a dict that is not a term dict")
-    return SV(VALUE(x.e, ver.dom, ver.val), "real")
+    return SV(VALUE(f.fid, x.e, ver.dom, ver.val), "real")
